@@ -333,7 +333,8 @@ def clause_kind_dispatch(facts, rep):
 
 
 def run(rep, tier):
-    configs = ['K1'] if tier == 'quick' else ['K1', 'K3', 'K4']
+    # K3: the SSE entry points are separate source (arch/sse/itoa.h); value ranges at their call sites differ per back end
+    configs = ['K1', 'K3'] if tier == 'quick' else ['K1', 'K3', 'K4', 'K8']
     for cfg in configs:
         facts = get_facts(cfg)
         rep.unit(facts)
